@@ -62,6 +62,7 @@ int vrt_cv_wait(void *cv, void *m, int64_t deadline_ns) {
 }
 void vrt_cv_notify(void *, int) {}
 int64_t vrt_now_ns(void) { return g_now; }
+int vrt_early_clock_advances(void) { return 0; }
 int vrt_thread_create(void (*)(void *), void *) {
     failf("harness/thread-in-seq-mode", "std::thread created in a sequential harness");
     return -1;
@@ -80,6 +81,8 @@ void vrt_op(const void *, const char *) {}
 void vrt_block_on(int (*pred)(void *), void *arg, const void *, const char *what) {
     if (!pred(arg)) failf("deadlock/block", "blocking operation '%s' can never proceed", what ? what : "?");
 }
+void vrt_atomic_begin(void) {}
+void vrt_atomic_end(void) {}
 void vrt_yield(void) {}
 int vrt_choose(int, int) { return 0; }
 void vrt_fail(const char *sig, const char *fmt, ...) {
